@@ -67,6 +67,11 @@ CHECKS = {
   technique="TLA+ spec (Placement.tla) model-checked with TLC over every ring position assignment; TLC-enumerated memberships/join orders replayed on the real HashRing (observed through a hook) and GossipRouter/GossipState; results judged by TLC (PlaceTrace.tla) against Replicas/Targets recomputed from the observed ring",
   text="design level: size/distinctness, prefix-in-rf, minimal disruption and router coverage for all rings of 3 nodes x 2 vnodes, with the as-built from_config counterexample; implementation level: for every join order (with leave/rejoin) of clusters up to 4-5 nodes and random memberships up to 6, replica lists for every rf, the ring with one more node, and the routing tables of every sender (new, from_config, queue_deltas) must equal what the specification derives from the observed ring",
   note="positions as ranks; vnode counts {1,2,3,150}; 12 keys per case"),
+ "C20": dict(
+  category="other",
+  technique="TLA+ spec (Repro.tla: a harness as a seeded transition system run twice in one process and once in another, with ambient-read and leftover-state switches) model-checked with TLC; every built-in harness preset run for the same seeds twice in one process and once in a second process with reversed harness order, the recorded step/final/verdict traces compared pairwise by TLC (ReproTrace.tla)",
+  text="trace relation, not a state invariant: for 39 harness presets (executor, list, set, hash, sorted set, transaction, GCounter/PNCounter/ORSet/VectorClock, streaming, WAL, compaction, DSTSimulation, RedisDSTSimulation, partition tests, pipeline simulator) x 4 (thorough 10) seeds, the per-step operation log, the final state dump, the result structure and the verdict of run A1 must equal those of A2 (same process, later) and of B (other process, reversed order), record by record; the first diverging record is reported with both renderings",
+  note="level 'other': TLC compares recorded traces and checks the small determinism model; no exhaustive exploration of harness behaviour. Wall-clock reads that do not change a logged value are invisible"),
  "C07": dict(
   technique="TLA+ spec (Crdt.tla) model-checked with TLC; TLC-exported operation sequences replayed on the real ShardReplicaState/ReplicatedValue; recorded traces validated by TLC (CrdtTrace.tla)",
   text="TLC checks the three laws, in the observable projection, on every configuration of 3 replicas of one key reachable within the step bound; one operation sequence per distinct configuration is replayed on the real code and TLC validates every step (refinement of Merge) and the laws on the results of the real merge for all pairs and triples; random longer runs over all six CRDT kinds are validated the same way",
